@@ -33,6 +33,11 @@ def impl(py):
     _o = TimeScale().domain([_dt.datetime(2001, 2, 3, 4, 5), _dt.datetime(2031, 7, 9)]).range([7, 1234])
     _o.ticks(7)
     _o.nice()
+    _o2 = TimeScale().domain([_dt.datetime(2001, 2, 3, 4, 5, 6, 1000), _dt.datetime(2001, 2, 3, 4, 5, 6, 777000)])
+    try:
+        _o2.ticks(py["m"]) if py.get("m") is not None else _o2.ticks()      # the same count, a sub-second span
+    except Exception:  # noqa: BLE001
+        pass
     out = {}
     try:
         out["ticks"] = [to_us(x) for x in s.ticks(py["m"])]
